@@ -5,17 +5,16 @@ CONSTANTS
   Kinds = {"Sum","Min","Max","TopN","Rows","GroupBy","Count","Row","Bool"}
   Lims = {1,2}
   Vals <- ValsB
-  MaxCnt = 2
+  MaxCnt = 1
   R = 2
   G = 1
   ColsPer = 1
-  Canon = FALSE
+  Canon = TRUE
   DataSrc = "free"
 INIT Init
 NEXT Next
 INVARIANT TypeOK
 INVARIANT OrderIndependent
-INVARIANT LawsHold
 INVARIANT TieCountsAdd
 VIEW MView
 CHECK_DEADLOCK FALSE
